@@ -68,6 +68,24 @@ Proof.
 Qed.
 Print Assumptions preflight_keeps_substitutions.
 
+(* Rules with one and the same region (after normalisation: whatever the order of the condition sets
+   and whatever conditions cover a whole axis) become one rule; in it a glyph is replaced by what the
+   EARLIEST of these rules says ("earlier rules taking precedence"), for every rule list. *)
+Theorem same_region_earlier_rule_wins : forall U rules r' s',
+  (forall r, In r rules -> keys_sorted (snd r)) ->
+  In (r', s') (merge_same_region_rules U rules) ->
+  forall g, kv_find s' g = region_lookup U rules r' g.
+Proof. exact msr_earlier_wins. Qed.
+Print Assumptions same_region_earlier_rule_wins.
+
+(* instance: rules 0 and 2 have the same region, written differently, and replace glyph 0 by 1 and
+   by 3; rule 1 lies elsewhere.  Inside the region glyph 0 becomes 1, and rule 2's other replacement
+   is kept. *)
+Example same_region_conflict_resolved :
+  applied (overlay_feature_variations 16 rules_same_region) (at1 8) = [[(0%N, 1%N); (2%N, 3%N)]] /\
+  spec_apply rules_same_region (at1 8) 0%N = 1%N.
+Proof. destruct rules_same_region_fine as [_ [_ [_ [H1 [H2 _]]]]]. now split. Qed.
+
 (* When the maps do not interfere, any two lists with the same substitutions act the same: the order
    (rule order, or lookup order by content) and repetitions are irrelevant. *)
 Theorem order_irrelevant_when_compatible : forall L1 L2,
